@@ -8,6 +8,10 @@ package main
 // scripted peer that serves the file itself, records every request and answers held requests
 // in a PRNG permutation.
 //
+// Further dimensions: the open mode of the File (xfOpenModeList: access mode x O_CREATE / O_APPEND / O_TRUNC / O_EXCL and
+// Client.Create()), a request server whose FilePut handler is no sftp.OpenFileWriter (reads through a read-write open
+// must fail cleanly), and a client packet size above the server's max payload on the refilling read paths.
+//
 // Oracles: (1) outcome: bytes delivered / stored, count, error; (2) wire conformance on the
 // scripted peer: the multiset of (offset, length) READ/WRITE requests is the chunk plan;
 // (3) the same outcome when the replies are permuted. Model: the recorded plan is compared with
@@ -146,6 +150,71 @@ func xfC01Check(cs xfCase, out xfOutcome, fail xfFailer, hist func(...string)) {
 	}
 	implicit := cs.API != "ReadAt" && cs.API != "WriteAt"
 	wantOff := int64(0)
+	// the open: the flags asked for are the flags that arrive, an O_EXCL open of an existing name is refused and
+	// changes nothing, every other open succeeds
+	mode := cs.Mode()
+	if mode.Refuse {
+		if out.OpenErr == nil {
+			fail("open/excl-on-existing-accepted", "O_CREATE|O_EXCL on a name that exists must fail", "an error", "<nil>")
+		}
+		if !bytes.Equal(out.FileAfter, initial) {
+			fail("open/refused-open-changed-file", "a refused open changed the served file", xfShort(initial), xfShort(out.FileAfter))
+		}
+		if cs.Srv.Kind != "peer" && out.LeftOpen != 0 {
+			fail("handle-left", "the server holds a handle after a refused open", 0, out.LeftOpen)
+		}
+		return
+	}
+	if out.OpenErr != nil {
+		fail("open/"+mode.Name, "opening the served file in this mode failed", "<nil>", out.OpenErr.Error())
+		return
+	}
+	switch {
+	case cs.Srv.Kind == "peer":
+		if !out.OpenSeen || out.OpenWire != mode.Wire {
+			fail("open/pflags-on-wire", "the OPEN request does not carry the pflags of the requested mode "+mode.Name, mode.Wire, fmt.Sprintf("%d (seen=%v)", out.OpenWire, out.OpenSeen))
+		}
+	case cs.Srv.Kind == "rs":
+		if out.HandlerOp.Flags != mode.HandlerFlags() {
+			fail("open/flags-shown-to-handler", "Request.Pflags() in the handler differs from the mode the client asked for ("+mode.Name+")", fmt.Sprintf("%+v", mode.HandlerFlags()), fmt.Sprintf("%+v via %s", out.HandlerOp.Flags, out.HandlerOp.Via))
+		}
+	}
+	if mode.Empties() && (!out.AtOpenSet || len(out.AtOpen) != 0) {
+		fail("open/not-emptied", "right after an open with O_TRUNC / Client.Create() / O_CREATE|O_EXCL on a new name the file must exist and be empty ("+mode.Name+")",
+			"an empty file", fmt.Sprintf("exists=%v, %d bytes", out.AtOpenSet, len(out.AtOpen)))
+		return
+	}
+	if cs.ReadsRefused() {
+		// A handle the request server opened through Filewrite serves no READ: the read must fail cleanly - an error
+		// status, nothing delivered, nothing changed, the offset where it was, and the handle still closes.
+		wantN, wantClass := int64(0), "srv4"
+		if cs.API != "WriteTo" && L == 0 {
+			wantClass = "ok" // an empty buffer asks the server nothing
+		}
+		if out.N != wantN || xfErrClass(out.Err) != wantClass {
+			fail("refused-read/count-error", "a read through a write-only handle (FilePut without OpenFile) must return (0, the server's failure status)",
+				fmt.Sprintf("(%d, %s)", wantN, wantClass), fmt.Sprintf("(%d, %v)", out.N, out.Err))
+		}
+		if len(out.Data) != 0 {
+			fail("refused-read/data", "a refused read delivered bytes", "nothing", xfShort(out.Data))
+		}
+		if !bytes.Equal(out.FileAfter, initial) {
+			fail("file-changed", "a read changed the served file", xfShort(initial), xfShort(out.FileAfter))
+		}
+		if implicit {
+			wantOff = o
+		}
+		if out.OffErr != nil || out.OffAfter != wantOff {
+			fail("refused-read/offset", "a refused read moved the File offset", wantOff, fmt.Sprintf("%d (%v)", out.OffAfter, out.OffErr))
+		}
+		if out.CloseErr != nil {
+			fail("close", "Close after the refused read failed", nil, out.CloseErr.Error())
+		}
+		if out.LeftOpen != 0 {
+			fail("handle-left", "the server still holds a handle after Close", 0, out.LeftOpen)
+		}
+		return
+	}
 	switch cs.API {
 	case "ReadAt", "Read":
 		want := xfSlice(initial, o, L)
@@ -269,6 +338,37 @@ type xfJob struct {
 	Seed int64
 	Idx  int
 	Big  bool // a job of xfBigPacketCases instead of the variant sweep
+	// Reads: only the read-side APIs (the client's packet size lies above the server's max payload: the refilling
+	// single-chunk and sequential read paths still have to deliver exactly the file's bytes)
+	Reads bool
+}
+
+// xfApplyOpen gives the case its open mode. For the modes that empty the file the drawn size becomes what the name
+// held BEFORE the open and the file the transfer sees is empty.
+func xfApplyOpen(cs *xfCase, name string) {
+	cs.Open, cs.RW = name, false
+	m := cs.Mode()
+	if m.Empties() {
+		cs.PreLen = cs.FileLen
+		if cs.PreLen == 0 {
+			cs.PreLen = cs.Cfg.MP + 3
+			if cs.PreLen > 70000 {
+				cs.PreLen = 70000
+			}
+		}
+		cs.FileLen = 0
+	}
+	if m.Fresh {
+		cs.PreLen = 0
+	}
+}
+
+// xfPickOpen rotates through the open modes of the transfer's side.
+func xfPickOpen(api string, i int) string {
+	if api == "ReadAt" || api == "Read" || api == "WriteTo" {
+		return xfReadOpenModes[i%len(xfReadOpenModes)]
+	}
+	return xfWriteOpenModes[i%len(xfWriteOpenModes)]
 }
 
 // The largest DATA payload that fits the package's 262144-byte frame limit is 262135 bytes (9 bytes of
@@ -285,8 +385,16 @@ const xfBigMaxTx = 262144
 func xfBigPacketCases(spec xfSrvSpec, cfg xfCfg, rng *rand.Rand, thorough bool) []xfCase {
 	p := cfg.MP
 	var out []xfCase
+	nmk := rng.Intn(8)
 	mk := func(api string, S int, o int64, L int) {
-		out = append(out, xfCase{Srv: spec, Cfg: cfg, API: api, Src: "len", RW: rng.Intn(2) == 0, FileLen: S, Off: o, Len: L, Seed: rng.Intn(251)})
+		cs := xfCase{Srv: spec, Cfg: cfg, API: api, Src: "len", FileLen: S, Off: o, Len: L, Seed: rng.Intn(251)}
+		nmk++
+		if cs.IsRead() {
+			xfApplyOpen(&cs, []string{"rdonly", "rdwr", "rdwr+creat", "rdwr+append"}[nmk%4])
+		} else {
+			xfApplyOpen(&cs, []string{"wronly+creat", "rdwr", "wronly+append", "rdwr+creat", "wronly"}[nmk%5])
+		}
+		out = append(out, cs)
 	}
 	for k := 1; k <= 3; k++ {
 		for d := -1; d <= 1; d++ {
@@ -323,7 +431,7 @@ func checkC01(c *lib.Ctx) {
 	r := c.R
 	res := &xfRes{r: r}
 	thorough := c.Tier == "thorough"
-	r.Rule = "transfers = server kind {os, rs} x {allocator off,on} x {max-tx default, 65536} plus scripted peer {in order, permuted replies} x client options MaxPacket{Checked,Unchecked} mp in {1,2,3,4,7,32768} (and 40000 against the servers with max-tx 65536; 262131, 262132, 262135 = around the allocator page / frame limit against both servers with max-tx 262144, allocator on and off, reads of k*p-1,k*p,k*p+1 for k<=3) x MaxConcurrentRequestsPerFile in {1,2,3,64} x UseConcurrentReads x UseConcurrentWrites x UseFstat (quick: every (mp,conc) pair three times per server kind with the booleans rotating; thorough: the full product) x API {ReadAt, Read, WriteTo, WriteAt, Write, ReadFrom with sources Len/Size/Stat/LimitedReader/opaque(+1-byte reads, lying or negative Size, oversized limit), ReadFromWithConcurrency 0/1/3} x (file size, offset, length) from {0,1,k*mp-1,k*mp,k*mp+1 (k=1..3), mp*conc+r} and uniform draws up to 3*mp*conc+2 (thorough: every length 0..3*mp*conc+2 for mp<=7, conc<=3); a case is non-trivial when it needs more than one packet or touches end of file; distinct by (server, options, api, source, sizes)"
+	r.Rule = "transfers = server kind {os, rs} x {allocator off,on} x {max-tx default, 65536} plus scripted peer {in order, permuted replies} x client options MaxPacket{Checked,Unchecked} mp in {1,2,3,4,7,32768} (and 40000 against the servers with max-tx 65536; 262131, 262132, 262135 = around the allocator page / frame limit against both servers with max-tx 262144, allocator on and off, reads of k*p-1,k*p,k*p+1 for k<=3) x MaxConcurrentRequestsPerFile in {1,2,3,64} x UseConcurrentReads x UseConcurrentWrites x UseFstat (quick: every (mp,conc) pair three times per server kind with the booleans rotating; thorough: the full product) x API {ReadAt, Read, WriteTo, WriteAt, Write, ReadFrom with sources Len/Size/Stat/LimitedReader/opaque(+1-byte reads, lying or negative Size, oversized limit), ReadFromWithConcurrency 0/1/3} x (file size, offset, length) from {0,1,k*mp-1,k*mp,k*mp+1 (k=1..3), mp*conc+r} and uniform draws up to 3*mp*conc+2 (thorough: every length 0..3*mp*conc+2 for mp<=7, conc<=3) x open mode of the File {O_RDONLY, O_WRONLY, O_RDWR, each with/without O_CREATE, O_APPEND (the servers take the offsets the client sends: the bytes land at the File offset), O_TRUNC and Client.Create() (the name held pre_open_len bytes before; the transfer sees an empty file), O_CREATE|O_EXCL on a new name, O_CREATE|O_EXCL on an existing name (the open must fail and change nothing)}: the mode rotates over the cases (thorough: also the explicit product mode x API variant x server kind for every fourth option set); the OPEN pflags are read off the wire on the scripted peer, Request.Pflags() in the handler on the request server x request server WITHOUT sftp.OpenFileWriter (FilePut has Filewrite only: a read-write open is served by Filewrite, writes work, every read through that handle must return (0, failure status), deliver nothing, leave file and offset alone, and Close must still release the handle) x client packet size 40000 above the default server max payload 32768 on the refilling read paths (ReadAt/Read/WriteTo with concurrent reads off); a case is non-trivial when it needs more than one packet or touches end of file; distinct by (server, options, api, source, sizes)"
 	model := xfProbeModel(c)
 	xfProbeDefects(&model)
 	if model.Seq {
@@ -345,8 +453,13 @@ func checkC01(c *lib.Ctx) {
 		mc.oneIn = 8
 	}
 
-	runCase := func(cs xfCase, real *xfReal, dir string, hold *xfPeerHold) {
+	hangs := &xfHangBudget{}
+	defer hangs.Report(r)
+	runCase := func(cs xfCase, real *xfReal, dir string, hold *xfPeerHold) (hung bool) {
 		out := xfExec(cs, real, dir, hold)
+		if hung = out.Hang; hung {
+			hangs.Add(cs.Srv)
+		}
 		path := cs.Path()
 		nontrivial := cs.Len > cs.Cfg.MP || cs.FileLen > cs.Cfg.MP || cs.Off+int64(cs.Len) >= int64(cs.FileLen)
 		res.Case(cs.Text(), nontrivial)
@@ -364,6 +477,36 @@ func checkC01(c *lib.Ctx) {
 		res.Hist("api="+api+"|path="+path, "api="+cs.API+"|size="+sc, "api="+cs.API+"|srv="+cs.Srv.String(),
 			fmt.Sprintf("opt=mp%d|c%d", cs.Cfg.MP, cs.Cfg.Conc), fmt.Sprintf("opt=cr%d|cw%d|fstat%d", xfB(cs.Cfg.CR), xfB(cs.Cfg.CW), xfB(cs.Cfg.Fstat)),
 			"srv="+cs.Srv.String()+"|size="+sc)
+		side := "write"
+		if cs.IsRead() {
+			side = "read"
+		}
+		res.Hist("open="+cs.Mode().Name+"|side="+side, "open="+cs.Mode().Name+"|srv="+cs.Srv.Kind)
+		if cs.Mode().Append() && !cs.IsRead() && cs.Off < int64(cs.FileLen) {
+			res.Hist("open=append|write-starts-below-end-of-file")
+		}
+		if cs.Srv.NoOFW {
+			switch {
+			case cs.ReadsRefused():
+				res.Hist("rs-without-OpenFileWriter|read-through-Filewrite-handle-refused|api=" + cs.API + "|path=" + path)
+			case cs.IsRead():
+				res.Hist("rs-without-OpenFileWriter|read-through-Fileread-handle|api=" + cs.API)
+			case cs.Mode().Reads():
+				res.Hist("rs-without-OpenFileWriter|write-through-read-write-open|api=" + cs.API)
+			default:
+				res.Hist("rs-without-OpenFileWriter|write-through-write-only-open|api=" + cs.API)
+			}
+		}
+		if cs.Srv.Kind == "rs" && !cs.Srv.NoOFW && cs.IsRead() && cs.Mode().Writes() && !cs.Mode().Refuse {
+			k := "rs-with-OpenFileWriter|read-through-read-write-handle|api=" + cs.API
+			if cs.API != "WriteTo" && cs.Off < int64(cs.FileLen) && cs.Off+int64(cs.Len) > int64(cs.FileLen) {
+				k += "|crosses-eof(handler returns n>0 with io.EOF)"
+			}
+			res.Hist(k)
+		}
+		if cs.Cfg.MP > xfMaxTx(cs.Srv) {
+			res.Hist("packet-size-above-server-max-payload|api=" + cs.API + "|path=" + path + "|srv=" + cs.Srv.String())
+		}
 		if cs.Window > 1 {
 			res.Hist("peer=held-window>1|path=" + path)
 		}
@@ -388,14 +531,20 @@ func checkC01(c *lib.Ctx) {
 		if out.SetupErr != nil || out.Hang || out.Panic != nil {
 			return
 		}
-		if cs.Srv.Kind == "peer" && model.Plan && len(cs.Fail) == 0 {
+		if cs.Srv.Kind == "peer" && model.Plan && len(cs.Fail) == 0 && out.OpenErr == nil && !cs.Mode().Refuse {
 			if e := xfExpectWire(cs); e.PurePlan && cs.ShortCap == 0 {
 				mc.add(xfSeqLine{readat: true, input: cs, line: fmt.Sprintf("xfer.plan %d %d %d", cs.Cfg.MP, cs.Off, cs.Len), calls: xfPlanText(xfDataReqs(out.Log, e.Typ))})
 			}
 		}
-		if cs.ShortCap == 0 && cs.FileLen <= 150000 && cs.Len <= 150000 { // (the model works on byte lists; MB-sized cases take seconds)
+		switch {
+		case out.OpenErr != nil || cs.Mode().Refuse:
+			res.Hist("model=not-compared|the-open-is-refused (the model has no open)")
+		case cs.ReadsRefused():
+			res.Hist("model=not-compared|read-through-a-handle-that-serves-no-READ (the model's server serves every handle)")
+		case cs.ShortCap == 0 && cs.FileLen <= 150000 && cs.Len <= 150000: // (the model works on byte lists; MB-sized cases take seconds)
 			mc.addCase(model, cs, out, xfMaxTx(cs.Srv))
 		}
+		return
 	}
 
 	if c.Replay != "" {
@@ -427,12 +576,13 @@ func checkC01(c *lib.Ctx) {
 	}
 
 	specs := append([]xfSrvSpec(nil), xfRealSpecs...)
-	specs = append(specs, xfSrvSpec{Kind: "peer"}, xfSrvSpec{Kind: "peer", Perm: true})
+	specs = append(specs, xfSrvSpec{Kind: "peer"}, xfSrvSpec{Kind: "peer", Perm: true},
+		xfSrvSpec{Kind: "rs", NoOFW: true}, xfSrvSpec{Kind: "rs", NoOFW: true, Alloc: true, MaxTx: 65536})
 	var jobs []xfJob
 	rot := int(c.Seed % 8)
 	for si, sp := range specs {
 		cfgs := append(append(xfCoverCfgs(si*3+rot), xfCoverCfgs(si*3+rot+1)...), xfCoverCfgs(si*3+rot+2)...)
-		if thorough {
+		if thorough && !sp.NoOFW { // (the handler variant differs in how the open is served only: it keeps the covering sets)
 			cfgs = xfAllCfgs()
 		}
 		for _, cfg := range cfgs {
@@ -444,6 +594,18 @@ func checkC01(c *lib.Ctx) {
 				jobs = append(jobs, xfJob{Spec: sp, Cfg: xfCfg{MP: 40000, Unchecked: true, Conc: conc, CR: (si+b)%2 == 0, CW: (si/2+b)%2 == 0, Fstat: b == 0},
 					Seed: c.Rand.Int63(), Idx: len(jobs)})
 			}
+		}
+	}
+	// a packet size above the server's max payload (40000 against the default 32768): outside the property for the
+	// concurrent readers (a short DATA reply means end of file to them), but the single-request and the sequential read
+	// paths ask again for the rest, so there the file's bytes must still arrive exactly
+	for si, sp := range []xfSrvSpec{{Kind: "os"}, {Kind: "os", Alloc: true}, {Kind: "rs"}, {Kind: "rs", Alloc: true}, {Kind: "rs", NoOFW: true}} {
+		for b, conc := range []int{1, 3} {
+			if !thorough && (si+b+rot)%2 == 0 {
+				continue
+			}
+			jobs = append(jobs, xfJob{Spec: sp, Reads: true, Cfg: xfCfg{MP: 40000, Unchecked: true, Conc: conc, CR: false, CW: (si+b)%2 == 0, Fstat: b == 0},
+				Seed: c.Rand.Int63(), Idx: len(jobs)})
 		}
 	}
 	// packet sizes around the allocator's page boundary, both servers, allocator on and off
@@ -491,7 +653,9 @@ func checkC01(c *lib.Ctx) {
 		cfg := job.Cfg
 		if job.Big {
 			for _, cs := range xfBigPacketCases(job.Spec, cfg, rng, thorough) {
-				runCase(cs, real, dir, hold)
+				if runCase(cs, real, dir, hold) {
+					return // (the connection of a hung call is not used again)
+				}
 			}
 			return
 		}
@@ -518,7 +682,12 @@ func checkC01(c *lib.Ctx) {
 			lens = nil
 		}
 		k := job.Idx
+		dead := false
+		nOpen := job.Idx*5 + rot
 		for vi, v := range variants {
+			if job.Reads && v.API != "ReadAt" && v.API != "Read" && v.API != "WriteTo" {
+				continue
+			}
 			ls := lens
 			if ls == nil {
 				ls = []int{classes[(k+vi)%len(classes)], -1}
@@ -530,43 +699,72 @@ func checkC01(c *lib.Ctx) {
 			if thorough && small {
 				reps = 2
 			}
-			for _, L := range ls {
-				for rep := 0; rep < reps; rep++ {
-					S, o, l := xfGeom(rng, cfg, v.API, L)
-					cs := xfCase{Srv: job.Spec, Cfg: cfg, API: v.API, Src: v.Src, RFC: v.RFC, RW: rng.Intn(2) == 0,
-						FileLen: S, Off: o, Len: l, Seed: rng.Intn(251)}
-					if cs.Src == "*" {
-						cs.Src = xfSrcKinds[5+rng.Intn(len(xfSrcKinds)-5)]
-					}
-					if job.Spec.Kind == "peer" {
-						cs.Window = 1
-						if job.Spec.Perm {
-							cs.PermSeed = rng.Int63()
-							cs.Window = xfPickWindow(rng, cs)
-						} else {
-							// the in-order peer also exercises short DATA replies on the sequential read paths and a
-							// size-only ATTRS reply (file not known to be regular) for WriteTo
-							if cs.IsRead() && cs.Path() != "concurrent" && rng.Intn(4) == 0 {
-								if cs.API == "WriteTo" && cfg.CR {
-									cs.NoPerm = true
-								}
-								if !cfg.CR || cs.Path() == "single" || cs.NoPerm {
-									cs.ShortCap = 1 + rng.Intn(cfg.MP)
-									if cs.ShortCap > 64 && cs.FileLen > 200000 {
-										cs.ShortCap = 8192 + rng.Intn(8192)
-									}
+			one := func(L int, openName string) {
+				if dead || hangs.Spent(job.Spec) {
+					return
+				}
+				S, o, l := xfGeom(rng, cfg, v.API, L)
+				cs := xfCase{Srv: job.Spec, Cfg: cfg, API: v.API, Src: v.Src, RFC: v.RFC,
+					FileLen: S, Off: o, Len: l, Seed: rng.Intn(251)}
+				if cs.Src == "*" {
+					cs.Src = xfSrcKinds[5+rng.Intn(len(xfSrcKinds)-5)]
+				}
+				// the open mode rotates over the cases (every mode meets every API, server kind and size class
+				// within a run; thorough: the explicit product below as well)
+				if openName == "" {
+					nOpen++
+					openName = xfPickOpen(v.API, nOpen)
+				}
+				xfApplyOpen(&cs, openName)
+				if job.Spec.Kind == "peer" {
+					cs.Window = 1
+					if job.Spec.Perm {
+						cs.PermSeed = rng.Int63()
+						cs.Window = xfPickWindow(rng, cs)
+					} else {
+						// the in-order peer also exercises short DATA replies on the sequential read paths and a
+						// size-only ATTRS reply (file not known to be regular) for WriteTo
+						if cs.IsRead() && cs.Path() != "concurrent" && rng.Intn(4) == 0 {
+							if cs.API == "WriteTo" && cfg.CR {
+								cs.NoPerm = true
+							}
+							if !cfg.CR || cs.Path() == "single" || cs.NoPerm {
+								cs.ShortCap = 1 + rng.Intn(cfg.MP)
+								if cs.ShortCap > 64 && cs.FileLen > 200000 {
+									cs.ShortCap = 8192 + rng.Intn(8192)
 								}
 							}
 						}
 					}
-					runCase(cs, real, dir, hold)
-					tag := cs.API + "/" + cs.Path() + "/" + job.Spec.Kind
-					sampleMu.Lock()
-					if !sampled[tag] && cs.Len+cs.FileLen > 2*cfg.MP && cfg.MP < 100 && len(sampled) < 12 {
-						sampled[tag] = true
-						res.Sample(cs)
+				}
+				if runCase(cs, real, dir, hold) && real != nil {
+					dead = true // the client of a hung call is not used again: the job ends here
+				}
+				tag := cs.API + "/" + cs.Path() + "/" + job.Spec.Kind
+				sampleMu.Lock()
+				if !sampled[tag] && cs.Len+cs.FileLen > 2*cfg.MP && cfg.MP < 100 && len(sampled) < 12 {
+					sampled[tag] = true
+					res.Sample(cs)
+				}
+				sampleMu.Unlock()
+			}
+			for _, L := range ls {
+				for rep := 0; rep < reps; rep++ {
+					one(L, "")
+				}
+			}
+			if thorough && (job.Idx%4 == 0 || job.Spec.NoOFW) {
+				// the explicit product: every open mode of the transfer's side with every API variant and server kind,
+				// under every fourth option set (the rotation above reaches all of them), at a size class
+				modes, seen := xfWriteOpenModes, map[string]bool{}
+				if v.API == "ReadAt" || v.API == "Read" || v.API == "WriteTo" {
+					modes = xfReadOpenModes
+				}
+				for _, name := range modes {
+					if !seen[name] {
+						seen[name] = true
+						one(classes[(k+vi+len(seen))%len(classes)], name)
 					}
-					sampleMu.Unlock()
 				}
 			}
 		}
